@@ -146,6 +146,12 @@ func runC02(r *sim.Run) {
 	// ---- world: 2-4 names, some with a second key id; key ids collide across names
 	nNames := t.Range(2, 4)
 	names := []string{"origin.example", "relay1.example", "relay2.example:8448", "xn--relay3.example"}
+	if t.Chance(150) {
+		// signer names are arbitrary strings to JSON signing: some that mean
+		// something to path or pattern syntaxes
+		names[t.Intn(len(names))] = sim.Pick(t, []string{"weird|name", "@this", "a#b.example", "dotted.name.with.many.dots", "star*name", "q?mark", "back\\slash", "0"})
+		r.Probe("signer_name_with_metacharacters")
+	}
 	for i := 0; i < nNames; i++ {
 		s := world.NewCompactServer(t, names[i], now)
 		c.ents = append(c.ents, entity{name: names[i], kid: s.Keys[0].ID, key: s.Keys[0]})
@@ -802,6 +808,16 @@ func (c *c02) listKeyIDs(where string) {
 	}
 }
 
+// s0 reports whether pub is the key behind one of the object's signatures.
+func s0(c *c02, pub ed25519.PublicKey) bool {
+	for _, sk := range c.slotKeys() {
+		if s := c.slots[sk]; s.origin != nil && bytes.Equal(s.origin.Pub, pub) {
+			return true
+		}
+	}
+	return false
+}
+
 // verifyFinal: at the verifier every real and wrong triple is tried.
 func (c *c02) verifyFinal() {
 	r := c.r
@@ -833,6 +849,21 @@ func (c *c02) verifyFinal() {
 		cand[slotKey{k.name, strings.ToUpper(k.kid)}] = true
 		cand[slotKey{k.name, ""}] = true
 		cand[slotKey{"", k.kid}] = true
+		// names and key IDs that would match as patterns or as prefixes
+		if len(k.name) > 2 {
+			cand[slotKey{k.name[:1] + "?" + k.name[2:], k.kid}] = true
+			cand[slotKey{k.name[:len(k.name)/2] + "*", k.kid}] = true
+			cand[slotKey{k.name[:len(k.name)-1], k.kid}] = true
+		}
+		if len(k.kid) > 2 {
+			cand[slotKey{k.name, k.kid[:len(k.kid)-1] + "?"}] = true
+			cand[slotKey{k.name, k.kid[:len(k.kid)/2] + "*"}] = true
+			cand[slotKey{k.name, k.kid[:len(k.kid)-1]}] = true
+		}
+		cand[slotKey{"*", k.kid}] = true
+		cand[slotKey{k.name, "*"}] = true
+		cand[slotKey{"*", "*"}] = true
+		cand[slotKey{"#", k.kid}] = true
 	}
 	var cs []slotKey
 	for k := range cand {
@@ -857,7 +888,7 @@ func (c *c02) verifyFinal() {
 						near = true
 					}
 				}
-				if !near {
+				if !near && !(strings.ContainsAny(k.name+k.kid, "*?#") && s0(c, p.pub)) {
 					continue
 				}
 			}
